@@ -305,5 +305,6 @@ def main : IO UInt32 :=
   -- the processor model is chosen by `kind=` of the first `op cfg`; two drivers share the line format, so peek
   runMulti [("c17-split", run OtelVerif.Drivers.C17.splitHandler),
             ("c17-proc-logs", run (OtelVerif.Drivers.C17.procHandler OtelVerif.Drivers.C17.logsSig)),
+            ("c17-proc-traces", run (OtelVerif.Drivers.C17.procHandler OtelVerif.Drivers.C17.logsSig)),
             ("c17-proc-metrics", run (OtelVerif.Drivers.C17.procHandler OtelVerif.Drivers.C17.metricsSig)),
             ("c17-card", run OtelVerif.Drivers.C17.cardHandler)]
